@@ -125,7 +125,16 @@ func (m MapSchema[K, V]) Unserialize(data any) (any, error) {
 		if err != nil {
 			return nil, ConstraintErrorAddPathSegment(err, fmt.Sprintf("[%v]", k.Interface()))
 		}
-		result.SetMapIndex(reflect.ValueOf(unserializedKey), reflect.ValueOf(unserializedValue))
+		reflectedKey := reflect.ValueOf(unserializedKey)
+		if result.MapIndex(reflectedKey).IsValid() {
+			// Two different raw keys (for example 1 and "1") were converted to the same key. Merging them would
+			// silently drop an entry after the size of the map has already been checked.
+			return nil, &ConstraintError{
+				Message: fmt.Sprintf("Duplicate key '%v' after key conversion", unserializedKey),
+				Path:    []string{fmt.Sprintf("{%v}", k.Interface())},
+			}
+		}
+		result.SetMapIndex(reflectedKey, reflect.ValueOf(unserializedValue))
 	}
 	return result.Interface(), nil
 }
